@@ -174,6 +174,13 @@ Record coders : Type := mkCo {
   encrypt : list Z -> list Z;
   decrypt : list Z -> list Z }.
 
+(* an executable instance: a one-byte "zlib header" and a byte-wise xor "cipher".  What the
+   receiver ends up with does not depend on the coders (C07/Proofs.v: wire_v1_result), so the
+   correspondence check evaluates the model with this instance. *)
+Definition tag_coders : coders :=
+  mkCo (fun b => 120 :: b) (fun b => match b with 120 :: r => Some r | _ => None end)
+       (map (fun x => Z.lxor x 90)) (map (fun x => Z.lxor x 90)).
+
 (* marshalPacketBody: (flag written into the header and left on the sender's packet, payload) *)
 Definition marshal_body (c : coders) (threshold : Z) (enc : bool) (p : packet) : Z * list Z :=
   let b := body_to_bytes (pbody p) in
